@@ -200,6 +200,8 @@ def shrink_scn(ck, hbin, drv, scn, env, cls, tries=3):
     best = None
     changed = True
     budget = 40
+    if "TIMEOUT" in cls or "hard-timeout" in cls:      # every attempt costs the full deadline
+        budget, tries = 10, 1
     while changed and budget > 0:
         changed = False
         for i in range(len(bs)):
@@ -312,31 +314,43 @@ def run(ck):
 
     # 1. ASan/UBSan build, trace validation
     fails = run_scenarios(ck, hbin, drv, scns, env, "asan", stats)
-    fails = [f for f in fails if confirmed(ck, hbin, drv, env, f, stats)]
     seen = set()
-    for f in fails:
-        c = classify(f[1])
-        if c in seen or len(seen) >= 3:
-            continue
-        seen.add(c)
-        report_fail(ck, hbin, drv, env, "trace-validation", f)
+    nrej = 0
+
+    def handle(fs, hb, label, st, shrink, limit):
+        """report one failure per class (at most `limit`), confirming time-outs first"""
+        n = 0
+        for f in fs:
+            c = classify(f[1])
+            if c in seen:
+                n += 1
+                continue
+            if len(seen) >= limit:
+                n += 1
+                continue
+            if not confirmed(ck, hb, drv, env, f, st):
+                continue
+            n += 1
+            seen.add(c)
+            report_fail(ck, hb, drv, env, label, f, shrink=shrink)
+        return n
+    nrej += handle(fails, hbin, "trace-validation", stats, True, 3)
     # 2. TSan build on a share of the scenarios
     nt = ck.scale(300, 6000)
     tscn = scns[:len(corpus)] + scns[len(corpus)::max(1, len(scns) // nt)][:nt]
-    tf = run_scenarios(ck, htsan, drv, tscn, env, "tsan", tstats, tsan=True)
-    tf = [f for f in tf if confirmed(ck, htsan, drv, env, f, tstats)]
-    for f in tf[:2]:
-        if classify(f[1]) in seen:
-            continue
-        seen.add(classify(f[1]))
-        report_fail(ck, htsan, drv, env, "tsan", f, shrink=False)
+    tf = []
+    if not ck.violations:
+        tf = run_scenarios(ck, htsan, drv, tscn, env, "tsan", tstats, tsan=True)
+        nrej += handle(tf, htsan, "tsan", tstats, False, len(seen) + 2)
+    else:
+        tstats["skipped"] = "trace validation already failed on the ASan build"
     ck.count(len(tscn))
 
     ck.cov["traces_validated_against_impl"] = stats.get("accepted", 0) + tstats.get("accepted", 0)
     ck.cov["trace_stats_asan"] = stats
     ck.cov["trace_stats_tsan"] = tstats
     ck.cov["tsan_reports"] = tstats.get("tsan_reports", 0)
-    ck.cov["rejected_traces"] = len(fails) + len(tf)
+    ck.cov["rejected_traces"] = nrej
     rc = {}
     for f in fails + tf:
         rc[classify(f[1])] = rc.get(classify(f[1]), 0) + 1
